@@ -176,6 +176,42 @@ theorem one_key_rel {canon : List Char → Option (List Char)}
     relpath canon cwd t1 base = relpath canon cwd t2 base :=
   relpath_one_key_abs base hs1 hs2 hd1 hd2 hc1 hc2
 
+/-! ### Directories that do not exist yet (repaired in /repo, a2f90ab)
+
+`realdirpath` resolves the longest leading part of the directory that exists and keeps the rest as spelled.  The key
+therefore depends only on the canonical form of that leading part and on the components after it. -/
+
+/-- What `resolveLongest` finds: the canonical form of the longest proper leading part that exists, and the components
+that follow it. -/
+def longestExisting (canon : List Char → Option (List Char)) (a : List Char) :
+    Option (List Char × List (List Char)) :=
+  (properPrefixes ((comps a).filter (fun c => c != dot))).findSome?
+    (fun pr => (canon ('/' :: joinSlash pr.1)).map (fun P => (P, pr.2)))
+
+/-- Two absolute spellings of a file in a directory that does not exist yet — through a symlinked directory and
+through the real one, say — get the same key from `realdirpath` as soon as their longest existing leading parts
+canonicalise to the same directory and the same components follow. -/
+theorem one_key_missing_dir {canon : List Char → Option (List Char)}
+    {cwd t1 t2 d1 d2 f P : List Char} {rest : List (List Char)}
+    (hs1 : splitLast t1 = some (d1, f)) (hs2 : splitLast t2 = some (d2, f))
+    (hd1 : isDotPath d1 = false) (hd2 : isDotPath d2 = false)
+    (hr1 : rooted d1 = true) (hr2 : rooted d2 = true)
+    (hn1 : canon d1 = none) (hn2 : canon d2 = none)
+    (hl1 : longestExisting canon d1 = some (P, rest)) (hl2 : longestExisting canon d2 = some (P, rest)) :
+    realdirpath canon cwd t1 = realdirpath canon cwd t2 := by
+  unfold longestExisting at hl1 hl2
+  simp only [realdirpath, hs1, hs2, hd1, hd2, hn1, hn2, hr1, hr2, resolveLongest, hl1, hl2, Bool.false_eq_true,
+    if_false, if_true]
+
+/-- … and the key is the real path: the canonical leading part followed by the remaining components, cleaned. -/
+theorem missing_dir_key {canon : List Char → Option (List Char)}
+    {cwd t d f P : List Char} {rest : List (List Char)}
+    (hs : splitLast t = some (d, f)) (hd : isDotPath d = false) (hr : rooted d = true)
+    (hn : canon d = none) (hl : longestExisting canon d = some (P, rest)) :
+    realdirpath canon cwd t = pushPath (normpath (rest.foldl (fun acc c => pushPath acc c) P)) f := by
+  unfold longestExisting at hl
+  simp only [realdirpath, hs, hd, hn, hr, resolveLongest, hl, Bool.false_eq_true, if_false, if_true]
+
 section Examples
 
 /-- A `canonicalize` that knows `/link/` and `/real/sub/../` both denote `/real`. -/
@@ -203,6 +239,28 @@ example :
     let canon : List Char → Option (List Char) := fun _ => some "/w".toList
     realdirpath canon "/w".toList "./f".toList ≠ realdirpath canon "/w".toList "/w/f".toList := by
   decide
+
+/-- `/link` is a symlink to `/real/sub`; neither `/link/new` nor `/real/sub/new` exists yet. -/
+def exCanon2 (d : List Char) : Option (List Char) :=
+  if d = "/link".toList ∨ d = "/real/sub".toList then some "/real/sub".toList
+  else if d = "/real".toList then some "/real".toList
+  else if d = "/".toList then some "/".toList
+  else none
+
+example : realdirpath exCanon2 "/w".toList "/link/new/a.out".toList = "/real/sub/new/a.out".toList ∧
+    realdirpath exCanon2 "/w".toList "/real/sub/new/a.out".toList = "/real/sub/new/a.out".toList ∧
+    realdirpath exCanon2 "/w".toList "/link/newer/../new/./a.out".toList = "/real/sub/new/a.out".toList := by
+  decide
+
+example : realdirpath exCanon2 "/w".toList "/link/new/a.out".toList =
+    realdirpath exCanon2 "/w".toList "/real/sub/new/a.out".toList :=
+  one_key_missing_dir (d1 := "/link/new/".toList) (d2 := "/real/sub/new/".toList) (f := "a.out".toList)
+    (P := "/real/sub".toList) (rest := ["new".toList])
+    (by decide) (by decide) (by decide) (by decide) (by decide) (by decide) (by decide) (by decide) (by decide) (by decide)
+
+/-- Before the repair the first spelling kept the link in its name (lexical cleaning only): the two spellings of one
+file were two database records, two locks and two builds. -/
+example : normpath "/link/new/".toList ≠ normpath "/real/sub/new/".toList := by decide
 
 end Examples
 
